@@ -2864,6 +2864,13 @@ func (db *DB) importToLTX(ctx context.Context, r io.Reader) (ltx.Pos, error) {
 		return ltx.Pos{}, fmt.Errorf("read database header: %w", err)
 	}
 
+	// Pages can only be written with the page size the database already has so
+	// an image with a different page size cannot be applied. Refuse it before
+	// it becomes an LTX file that neither this node nor its replicas can apply.
+	if db.pageSize != 0 && hdr.PageSize != db.pageSize {
+		return ltx.Pos{}, fmt.Errorf("import page size (%d) does not match database page size (%d)", hdr.PageSize, db.pageSize)
+	}
+
 	// Prepend header back onto original reader.
 	r = io.MultiReader(bytes.NewReader(data), r)
 
